@@ -85,9 +85,9 @@ def run(prop, only=None):
             shutil.rmtree(out_dir, ignore_errors=True)
     finally:
         shutil.rmtree(base, ignore_errors=True)
-        # the alternative work areas of the sensitivity runs
-        for d in glob.glob(os.path.join(ROOT, ".work", "alt_*")):
-            shutil.rmtree(d, ignore_errors=True)
+        # the alternative work area of THIS sensitivity run (named after the scratch path)
+        tag = re.sub(r"[^A-Za-z0-9]+", "_", os.path.join(base, "repo"))[-40:]
+        shutil.rmtree(os.path.join(ROOT, ".work", "alt_" + tag), ignore_errors=True)
     return res
 
 
